@@ -108,6 +108,12 @@ def DProd (v : Nat) : List (Expr α) → Expr α
   | e :: es => .add (.mul (D v e) (.prod es)) (.mul e (DProd v es))
 end
 
+/-- general power `u^v` with a non-constant exponent, `u > 0`: by definition `exp (v · ln u)`
+    (named functions 5 = `exp`, 6 = `log` of `fnNames`); `D` then gives
+    `u^v · (v' · ln u + v · u'/u) = v·u^(v-1)·u' + u^v·ln u·v'` by the chain and product rules.
+    (Integer constant exponents stay `pow`, exact over the rationals.) -/
+def gpow (a b : Expr α) : Expr α := .fn 5 0 (.mul b (.fn 6 0 a))
+
 /-- dual numbers `val + eps·ε`, `ε² = 0` -/
 structure Dual (α : Type) where
   val : α
